@@ -793,7 +793,7 @@ def run(ctx):
         raw = [(tuplify(c["fs"]), tuplify(c["args"]), c.get("kind", "corpus"), c.get("tags", []))
                for c in diff.load_corpus("C36") if "fs" in c]
         raw += fixed_items()
-        n_valid, n_bad = (1300, 500) if tier == "quick" else (12000, 4000)
+        n_valid, n_bad = (1300, 500) if tier == "quick" else (30000, 10000)
         for _ in range(n_valid):
             fmt, args, tags = assemble(gen_pieces(rng))
             raw.append((STR(fmt), L(args), "valid", tags))
